@@ -388,6 +388,26 @@ def r5_exact_export(ctx):
                   f"`{U(bad)[:70] if bad is not None else ''}` makes {name} write the values with a reduced precision: a save / load round trip no longer gives the values back")
 
 
+def r6_readers_keep_everything(ctx):
+    """'names, shapes and values are preserved': what a reader gets from the file / table is handed on whole - no row or column is dropped
+    on the way (a column that is NaN for every stored individual is still a component of a parameter)."""
+    ctx.rule("C16.R6", "the readers of the container drop no row or column of what they read (no dropna / drop / usecols / nrows ...)", 4)
+    DROPPING = {"dropna", "drop", "drop_duplicates", "filter", "select_dtypes", "truncate", "head", "tail", "sample", "nlargest", "nsmallest", "query"}
+    DROPPING_KW = {"usecols", "nrows", "skiprows", "skipfooter", "index_col", "na_values", "on_bad_lines", "comment"}
+    for name in ("_load_csv", "_load_json", "load", "from_dataframe"):
+        f = ctx.ix.func(MOD, f"{CLS}.{name}", "C16.R6")
+        bad = None
+        for n in ast.walk(f.node):
+            if isinstance(n, ast.Call) and isinstance(n.func, ast.Attribute):
+                if n.func.attr in DROPPING:
+                    bad = n
+                if n.func.attr in ("read_csv", "read_table", "read_json") and any(k.arg in DROPPING_KW for k in n.keywords):
+                    bad = n
+        ctx.check(bad is None, "C16.R6", f, bad if bad is not None else f.node, f"{name}: every row and column read is handed on",
+                  f"`{U(bad)[:80] if bad is not None else ''}` makes {name} leave out rows / columns of what was stored: a parameter (or a component of a vector-valued one) can disappear on "
+                  "a save / load round trip", construct=f"{name}: nothing dropped")
+
+
 def rules(ctx):
     r2b_values_stored_as_given(ctx)
     r1_shape_cases(ctx)
@@ -395,6 +415,7 @@ def rules(ctx):
     r3_codec(ctx)
     r4_tensor_json(ctx)
     r5_exact_export(ctx)
+    r6_readers_keep_everything(ctx)
     ctx.trust("pandas DataFrame / json round trip of Python scalars and lists")
 
 
